@@ -145,3 +145,27 @@ def run(ctx):
     cover = [n for n in ast.walk(rp) if isinstance(n, ast.Assign) and norm(n.targets[0]) == "instructions"]
     ok = bool(cover) and "self.frame.ig.uses(tmp)" in norm(cover[0].value) and "self.frame.ig.defs(tmp)" in norm(cover[0].value)
     ctx.ob("C06.R4", s, "every use and every definition of every register of the node is rewritten", ok and any(isinstance(n, ast.For) and norm(n.iter) == "node.temps" for n in ast.walk(rp)), construct="all-uses-defs")
+    # ---- R5: alias-aware interference test used by coalescing ----------
+    ctx.rule("C06.R5", "has_edge (the interference test of coalescing): besides the direct edge, EVERY register aliasing a pre-coloured operand is consulted - a missing graph node is skipped, it never ends the scan - for both operands", floor=5)
+    he = ctx.fn(RA, "GraphColoringRegisterAllocator.has_edge")
+    s = RA + ":GraphColoringRegisterAllocator.has_edge"
+    pt, pr = he.args.args[1].arg, he.args.args[2].arg
+    first = [n for n in he.body if isinstance(n, ast.If)]
+    ok = bool(first) and "self.frame.ig.has_edge(%s, %s)" % (pt, pr) in norm(first[0].test) and any(isinstance(x, ast.Return) and norm(x.value) == "True" for x in first[0].body)
+    ctx.ob("C06.R5", s, "a direct interference edge answers True", ok, construct="direct-edge")
+    loops = [l for l in ast.walk(he) if isinstance(l, ast.For) and norm(l.iter).startswith("self.alias[")]
+    sides = set()
+    for l in loops:
+        side = norm(l.iter)[len("self.alias["):-1].split(".")[0]
+        sides.add(side)
+        brk = [x for x in ast.walk(l) if isinstance(x, ast.Break)]
+        rets = [x for x in ast.walk(l) if isinstance(x, ast.Return)]
+        ok = not brk and all(norm(x.value) == "True" for x in rets) and bool(rets)
+        ctx.ob("C06.R5", s, "the scan over the aliases of `%s` runs to the end unless an edge was found (no break; a register without graph node is skipped)" % side, ok, construct="alias-scan-complete:%s" % side,
+               node=brk[0] if brk else l)
+        guard = [a for a in ast.walk(l) if isinstance(a, ast.If) and "has_node" in norm(a.test)]
+        pre = any(isinstance(a, ast.If) and norm(a.test) == "%s in self.precolored" % side for a in _anc(l))
+        ctx.ob("C06.R5", s, "aliases are consulted when `%s` is pre-coloured, through the node of each aliasing register" % side, pre and bool(guard) and any("get_node" in norm(x) for x in ast.walk(l)), construct="alias-scan-guard:%s" % side)
+    ctx.ob("C06.R5", s, "both operands get the alias treatment", sides == {pt, pr}, construct="both-sides", detail=str(sorted(sides)))
+    last = he.body[-1]
+    ctx.ob("C06.R5", s, "only after all of that the answer is False", isinstance(last, ast.Return) and norm(last.value) == "False", construct="false-last")
